@@ -19,3 +19,17 @@ pub(crate) fn verif_cpuid_stub(_leaf: u32, _sub: u32) -> core::arch::x86_64::Cpu
 pub(crate) fn verif_empty_string() -> String {
     String::new()
 }
+
+// memchr::memchr's contract (first index of the needle, None if absent), as a plain loop: the
+// real crate's SSE2 path loops over raw pointers that CBMC cannot bound.
+#[allow(dead_code)]
+pub(crate) fn verif_memchr_stub(needle: u8, haystack: &[u8]) -> Option<usize> {
+    let mut i = 0;
+    while i < haystack.len() {
+        if haystack[i] == needle {
+            return Some(i);
+        }
+        i += 1;
+    }
+    None
+}
